@@ -444,6 +444,8 @@ def fits_w(w, size, atomic=()):
         _, heights, args = w.get_rows_sizes(size, focus=True)
         if not heights or any(h < 1 for h in heights) or (len(size) == 2 and sum(heights) > size[1]):
             return False
+        if any(a == () and c.pack((), True)[0] > maxcol for (c, _), a in zip(w.contents, args)):
+            return False            # an item rendered fixed must not be wider than the Pile
         return all(fits_w(c, a, atomic) for (c, _), a in zip(w.contents, args))
     if isinstance(w, urwid.Columns):
         widths, heights, args = w.get_column_sizes(size, focus=True)
@@ -456,6 +458,9 @@ def fits_w(w, size, atomic=()):
             return False            # the static needs (given widths, min_width, dividers) must fit
         if any(h < 1 for h in heights) or (len(size) == 2 and any(h > size[1] for h in heights)):
             return False
+        for (c, _), a, cw_, ch_ in zip(w.contents, args, widths, heights):
+            if a == () and (c.pack((), True)[0] > cw_ or c.pack((), True)[1] > ch_):
+                return False        # a column rendered fixed must hold its widget
         return all(fits_w(c, a, atomic) for (c, _), a in zip(w.contents, args))
     if isinstance(w, urwid.Padding):
         left, right = w.padding_values(size, True)
@@ -1329,11 +1334,16 @@ class C09(core.Check):
                   "column_widths_focus_independent: when the static needs fit, Columns.column_widths does not depend "
                   "on focus_position).  The two "
                   "Overlay statements refuted in the first round hold since the fix: commits ebf9945 / f18097d (former "
-                  "witnesses kept as regression Examples and corpus cases).  MODELLED, CORRESPONDENCE ONLY (no theorems): "
-                  "the fixed-size paths (size ()): fixed leaves, Padding / Pile / Columns rendered fixed, 'pack' items "
-                  "holding fixed-only widgets, 'pack' columns, Overlay with width 'pack' (Model/GeometryX.v, an "
-                  "extension of the proved model; on every tree without fixed parts the two models are compared with "
-                  "each other inside run_case on every case).  Oracle only (no model): real Edit / SelectableIcon / "
+                  "witnesses kept as regression Examples and corpus cases).  EXTENDED MODEL (Model/GeometryX.v: fixed-size "
+                  "paths, size (): fixed leaves, Padding / Pile / Columns rendered fixed, 'pack' items holding fixed-only "
+                  "widgets, 'pack' columns, Overlay width 'pack'): extended_view_is_view_on_sized_trees (on a tree "
+                  "without fixed parts the extended view IS the proved view, by construction) and, for EVERY tree and "
+                  "every size including (): cursor_agree_x, mouse_reaches_drawn_leaf_x, leaf_rects_inside_canvas_x "
+                  "(the canvas of a widget rendered fixed is its packed size), fits_size_kind; one level for widgets "
+                  "with fixed parts: mouse_hits_drawn_child_x, mouse_to_no_other_child_x, move_cursor_iff_child_x.  "
+                  "NOT lifted: cursor_on_requested_row for trees with fixed parts (correspondence and oracle only there; "
+                  "for trees without fixed parts it holds through the bridge).  In run_case the two models are still compared "
+                  "with each other on every case without fixed parts.  Oracle only (no model): real Edit / SelectableIcon / "
                   "Button / CheckBox leaves, GridFlow, ListBox, get_pref_col, Padding 'clip'.  Overlay pop-ups "
                   "(PopUpLauncher/PopUpTarget) are not covered.")
     level_note = ("Trusted: Coq kernel, py2v translator, ExtrOcamlBasic extraction + OCaml driver, the hand-written "
@@ -1352,7 +1362,7 @@ class C09(core.Check):
         "tools/py2v translator (int_scale, calculate_left_right_padding, calculate_top_bottom_filler regenerated every run)",
         "extraction: ExtrOcamlBasic only; Z/positive stay Coq datatypes; OCaml 4.13.1; tools/driver/driver.ml",
         "hand-written mirror of the geometry methods and size helpers in Model/Geometry.v (validated by this correspondence)",
-        "Model/GeometryX.v (fixed-size paths, 'pack' columns, sizing() of Pile / Columns): executable only, validated by the correspondence; it answers for the proved model only after checking that both agree",
+        "Model/GeometryX.v (fixed-size paths, 'pack' columns, sizing() of Pile / Columns): hand-written mirror validated by the correspondence; theorems in Proofs/GeometryXProofs.v; identical to the proved model on trees without fixed parts (proved; also compared at run time)",
         "Python oracle, spy leaves and the implementation-side 'fits' walk in harness/props/c09.py",
     ]
     assumptions = [
@@ -1360,7 +1370,8 @@ class C09(core.Check):
         "every child supports the mode (flow / box) its container asks of it (checked against sizing() for every case)",
         "integer columns for move_cursor_to_coords ('left' / 'right' are not modelled); button-1 press events",
         "pack((maxcol,))[0] == maxcol for every modelled widget (Widget.pack default; Text-like widgets with their own pack are oracle-only)",
-        "the theorems are about sizes (maxcol,) and (maxcol, maxrow); trees with fixed-size parts are covered by the extended model and the oracle only",
+        "a widget rendered fixed 'fits' only when its width type is 'pack' (Padding / Overlay) resp. every fixed item fits the width / column it gets; Padding with a given or relative width rendered at size () is excluded (render works, the three other methods raise ValueError: reported)",
+        "cursor_on_requested_row is proved for trees without fixed-size parts only; with fixed parts it is covered by the correspondence and the oracle",
         "leaf contract: a leaf's get_cursor_coords equals the cursor of its own focused rendering; a cursor implies selectable + cursor API",
         "the bottom widget of an Overlay is background: it never receives mouse events (by design of Overlay.mouse_event)",
         "mouse events and cursor moves follow a rendering at the same size; additionally get_cursor_coords and sample presses are sent to a never-rendered tree and to a tree last rendered at another width, and after a focus-moving press get_cursor_coords is compared with the next focused rendering with the canvas cache in use",
